@@ -5,6 +5,8 @@ import (
 	"sort"
 	"strings"
 
+	"google.golang.org/protobuf/types/known/fieldmaskpb"
+
 	"google.golang.org/grpc/status"
 	"google.golang.org/protobuf/proto"
 	"google.golang.org/protobuf/reflect/protoreflect"
@@ -29,6 +31,15 @@ type wcase struct {
 	All     bool    `json:"all_writable"`
 	M       mt.Mask `json:"update_mask"`
 	R       mt.Mask `json:"reset_mask"`
+	// Route: how the resource's writable FieldMask is constructed (literal: cap == len; union, append,
+	// unmarshal: the Paths slice has spare capacity, as masks from configuration usually have)
+	Route string `json:"writable_route,omitempty"`
+	// Inner: a second write with its OWN extra writable fields, issued from InterceptBefore of this one,
+	// i.e. between this write's Validate and Merge (Value: a write that changes nothing; Collection:
+	// a write to another item "y", initially equal to the stored message)
+	Inner *wcase `json:"nested_write,omitempty"`
+	// Nested marks the inner write itself (only used for signatures)
+	Nested bool `json:"-"`
 }
 
 type wout struct {
@@ -40,6 +51,9 @@ type wout struct {
 	Written  proto.Message // pristine copy of the written message
 	// Changed reports that a failed call changed the stored value
 	ChangedOnErr bool
+	// MaskMutated: the resource's configured writable mask (the whole backing array of its Paths) changed
+	MaskMutated string
+	Inner       *wout
 }
 
 func (o wout) text() string {
@@ -53,6 +67,60 @@ func (o wout) text() string {
 		return "err:" + o.Err
 	}
 	return mt.CanonMsg(o.After) + " " + mt.CanonMsg(o.SrcAfter)
+}
+
+func (o wout) fullText() string {
+	if o.Inner != nil && o.Panic == "" {
+		return o.text() + " || nested: " + o.Inner.text()
+	}
+	return o.text()
+}
+
+// writableMask builds the resource's writable FieldMask by the case's construction route.
+func (c wcase) writableMask() *fieldmaskpb.FieldMask {
+	switch c.Route {
+	case "union":
+		return fieldmaskpb.Union(c.W.FM(), nil)
+	case "append":
+		fm := &fieldmaskpb.FieldMask{}
+		for _, p := range c.W.Paths {
+			fm.Paths = append(fm.Paths, p)
+		}
+		if fm.Paths == nil {
+			fm.Paths = []string{}
+		}
+		return fm
+	case "unmarshal":
+		b, err := proto.Marshal(c.W.FM())
+		if err != nil {
+			panic(err)
+		}
+		fm := &fieldmaskpb.FieldMask{}
+		if err := proto.Unmarshal(b, fm); err != nil {
+			panic(err)
+		}
+		return fm
+	}
+	return c.W.FM()
+}
+
+func fullSlice(fm *fieldmaskpb.FieldMask) []string {
+	if fm == nil {
+		return nil
+	}
+	return append([]string{}, fm.Paths[:cap(fm.Paths)]...)
+}
+
+func sameStrings(a, b []string) bool {
+	if len(a) != len(b) {
+		return false
+	}
+	for i := range a {
+		if a[i] != b[i] {
+			return false
+		}
+	}
+	return true
 }
 
 func (c wcase) decode() (dst, src proto.Message) {
@@ -139,50 +207,97 @@ func (c wcase) runCode() wout {
 		out.Err = codeName(err)
 		out.After, out.SrcAfter = dst, src
 		out.ChangedOnErr = err != nil && !proto.Equal(dst, out.Before)
-	case "value":
+	case "value", "collection":
 		var ropts []resource.Option
-		if dst != nil {
-			ropts = append(ropts, resource.WithInitialValue(dst))
-		}
+		var wfm *fieldmaskpb.FieldMask
 		if !c.W.Nil {
-			ropts = append(ropts, resource.WithWritableFields(c.W.FM()))
+			wfm = c.writableMask()
+			ropts = append(ropts, resource.WithWritableFields(wfm))
 		}
-		v := resource.NewValue(ropts...)
+		wBefore := fullSlice(wfm)
+		var v *resource.Value
+		var col *resource.Collection
+		if c.Site == "value" {
+			if dst != nil {
+				ropts = append(ropts, resource.WithInitialValue(dst))
+			}
+			v = resource.NewValue(ropts...)
+		} else {
+			col = resource.NewCollection(ropts...)
+			if dst == nil {
+				dst = r.New()
+			}
+			for _, id := range []string{"x", "y"} {
+				if _, err := col.Add(id, proto.Clone(dst), resource.WithAllFieldsWritable()); err != nil {
+					panic(err)
+				}
+			}
+		}
+		opts := c.writeOpts()
+		if c.Inner != nil {
+			in := *c.Inner
+			_, isrc := in.decode()
+			iout := wout{Written: proto.Clone(isrc), Before: proto.Clone(out.Before), SrcAfter: isrc}
+			opts = append(opts, resource.InterceptBefore(func(_, _ proto.Message) {
+				// runs between the outer write's Validate and Merge
+				var ierr error
+				done := make(chan struct{})
+				go func() {
+					defer close(done)
+					p, msg := lib.Catch(func() {
+						if v != nil {
+							_, ierr = v.Set(isrc, in.writeOpts()...)
+						} else {
+							_, ierr = col.Update("y", isrc, in.writeOpts()...)
+						}
+					})
+					if p {
+						iout.Panic = msg
+					}
+				}()
+				<-done
+				iout.Err = codeName(ierr)
+				if v != nil {
+					iout.After = v.Get()
+					if iout.After == nil {
+						iout.After = r.New()
+					}
+				} else {
+					iout.After, _ = col.Get("y")
+				}
+				iout.ChangedOnErr = ierr != nil && !proto.Equal(iout.After, iout.Before)
+			}))
+			out.Inner = &iout
+		}
 		var err error
-		panicked, msg := lib.Catch(func() { _, err = v.Set(src, c.writeOpts()...) })
+		panicked, msg := lib.Catch(func() {
+			if v != nil {
+				_, err = v.Set(src, opts...)
+			} else {
+				_, err = col.Update("x", src, opts...)
+			}
+		})
 		if panicked {
 			out.Panic = msg
 			return out
 		}
 		out.Err = codeName(err)
-		out.After = v.Get()
-		if out.After == nil {
-			out.After = r.New()
+		if v != nil {
+			out.After = v.Get()
+			if out.After == nil {
+				out.After = r.New()
+			}
+		} else {
+			out.After, _ = col.Get("x")
 		}
 		out.SrcAfter = src
 		out.ChangedOnErr = err != nil && !proto.Equal(out.After, out.Before)
-	case "collection":
-		var ropts []resource.Option
-		if !c.W.Nil {
-			ropts = append(ropts, resource.WithWritableFields(c.W.FM()))
+		if wAfter := fullSlice(wfm); !sameStrings(wBefore, wAfter) {
+			out.MaskMutated = fmt.Sprintf("%q -> %q", wBefore, wAfter)
 		}
-		col := resource.NewCollection(ropts...)
-		if dst == nil {
-			dst = r.New()
+		if out.Inner != nil && out.Inner.After == nil {
+			out.Inner = nil // the outer write was rejected before its interceptor ran
 		}
-		if _, err := col.Add("x", proto.Clone(dst), resource.WithAllFieldsWritable()); err != nil {
-			panic(err)
-		}
-		var err error
-		panicked, msg := lib.Catch(func() { _, err = col.Update("x", src, c.writeOpts()...) })
-		if panicked {
-			out.Panic = msg
-			return out
-		}
-		out.Err = codeName(err)
-		out.After, _ = col.Get("x")
-		out.SrcAfter = src
-		out.ChangedOnErr = err != nil && !proto.Equal(out.After, out.Before)
 	default:
 		panic("site " + c.Site)
 	}
@@ -202,7 +317,11 @@ func (c wcase) modelLines() []string {
 	if c.All {
 		all = "1"
 	}
-	return []string{fmt.Sprintf("set %d %s %s %s %s %s %s %s", ty, c.W.Enc(), c.More.Enc(), all, c.M.Enc(), c.R.Enc(), c.DstText, c.SrcText)}
+	lines := []string{fmt.Sprintf("set %d %s %s %s %s %s %s %s", ty, c.W.Enc(), c.More.Enc(), all, c.M.Enc(), c.R.Enc(), c.DstText, c.SrcText)}
+	if c.Inner != nil {
+		lines = append(lines, c.Inner.modelLines()...)
+	}
+	return lines
 }
 
 func (c wcase) modelAnswer(ans []string) string {
@@ -211,6 +330,9 @@ func (c wcase) modelAnswer(ans []string) string {
 			return "err:" + ans[0]
 		}
 		return ans[1]
+	}
+	if c.Inner != nil && !strings.HasPrefix(ans[0], "err:") && ans[0] != "panic" {
+		return ans[0] + " || nested: " + ans[1]
 	}
 	return ans[0]
 }
@@ -330,7 +452,13 @@ func hasMsgAt(m protoreflect.Message, path []string) bool {
 func (c wcase) monitor(mon *lib.Monitor, out wout) {
 	md := rootByName(c.Root).MD()
 	site := "C05/" + c.Site
+	if c.Nested {
+		site += "+nested-write"
+	}
 	W := c.effW()
+	if out.MaskMutated != "" {
+		mon.Violate(site+"/writable-mask-mutated", "a write changed the resource's configured writable mask (backing array of Paths included): "+out.MaskMutated, c, "unchanged", "changed")
+	}
 
 	// classify the update mask independently of fieldmaskpb
 	unknown, outside := "", ""
@@ -630,16 +758,42 @@ func genCase(g *mt.Gen, site string) wcase {
 		c.R.Paths = c.R.Paths[:1]
 	}
 	if site != "updater" {
-		if g.R.Intn(5) == 0 {
+		if g.R.Intn(3) == 0 {
 			c.More = g.MaskFrom(focus, clean)
 		}
 		c.All = g.R.Intn(12) == 0
+		c.Route = []string{"literal", "union", "append", "unmarshal"}[g.R.Intn(4)]
+		if !c.W.Nil && c.Dst != "nil" && g.R.Intn(3) == 0 {
+			// a nested write with its own extra writable fields, issued from the outer write's interceptor
+			isrc := g.Msg(md, r.New, focus)
+			in := wcase{Root: c.Root, Site: site, Nested: true, Dst: c.Dst, DstText: c.DstText, W: c.W, Route: c.Route,
+				Src: mt.EncodeMsg(isrc), SrcText: mt.CanonMsg(isrc),
+				More: g.MaskFrom(focus, clean), M: mt.NilMask(), R: mt.NilMask()}
+			if site == "value" {
+				// must not change the stored value (the outer write would be aborted): empty mask, or rejected
+				if g.R.Intn(2) == 0 {
+					in.M = mt.Mask{Paths: []string{}}
+				} else {
+					in.M = mt.Mask{Paths: []string{"nope"}}
+				}
+			} else if g.R.Intn(3) != 0 {
+				in.M = g.MaskFrom(focus, clean)
+			}
+			if c.More.Nil {
+				c.More = g.MaskFrom(focus, clean)
+			}
+			c.Inner = &in
+		}
 	}
 	return c
 }
 
 func (c wcase) key() string {
-	return strings.Join([]string{c.Root, c.Site, c.W.Enc(), c.More.Enc(), fmt.Sprint(c.All), c.M.Enc(), c.R.Enc(), c.DstText, c.SrcText}, " ")
+	k := strings.Join([]string{c.Root, c.Site, c.W.Enc(), c.More.Enc(), fmt.Sprint(c.All), c.M.Enc(), c.R.Enc(), c.DstText, c.SrcText, c.Route}, " ")
+	if c.Inner != nil {
+		k += " nested:" + c.Inner.key()
+	}
+	return k
 }
 
 func (c wcase) nontrivial() bool {
@@ -662,8 +816,14 @@ func runCases(cases []wcase, tie *lib.Tie, mon *lib.Monitor, drv *lib.Driver) {
 		model := c.modelAnswer(ans[i : i+n])
 		i += n
 		out := c.runCode()
-		code := out.text()
+		code := out.fullText()
 		tie.Record(c.key(), c.nontrivial(), c, model, code)
+		if c.Inner != nil {
+			tie.Count("nested-write")
+		}
+		if c.Route != "" {
+			tie.Count("writable-route:" + c.Route)
+		}
 		switch {
 		case out.Panic != "":
 			tie.Count("outcome:panic")
@@ -686,6 +846,9 @@ func runCases(cases []wcase, tie *lib.Tie, mon *lib.Monitor, drv *lib.Driver) {
 		}
 		mon.Eval(c.key(), c.nontrivial(), nil)
 		c.monitor(mon, out)
+		if c.Inner != nil && out.Inner != nil {
+			c.Inner.monitor(mon, *out.Inner)
+		}
 	}
 }
 
@@ -720,9 +883,9 @@ func seededCases() []wcase {
 
 func runWrites(f lib.Flags, res *lib.Result, drv *lib.Driver) {
 	tie := res.Tie("writes", "K1",
-		"random (stored, written, update mask, writable, extra writable, all-writable, reset) tuples over TestAllTypes and three trait messages at FieldUpdater.Validate+Merge, Value.Set and Collection.Update, compared with the Lean model's validate/merge/valueSet (outcome: error code | panic | stored-after + written-after); masks drawn from the descriptor's path tree with parents, children, duplicates, overlaps and corrupted segments; non-trivial = some mask non-nil; distinct by the whole tuple")
+		"random (stored, written, update mask, writable, extra writable, all-writable, reset) tuples (the resource's writable mask built by four routes: literal, fieldmaskpb.Union, Append growth, proto.Unmarshal — the last three leave spare capacity in Paths; a third of the resource writes with writable fields carry a NESTED write with its own extra-writable mask issued from InterceptBefore, i.e. between the outer Validate and Merge: a no-op/rejected Set on a Value, an Update of another item on a Collection; both writes are compared with the model and monitored against W ∪ their OWN extras) over TestAllTypes and three trait messages at FieldUpdater.Validate+Merge, Value.Set and Collection.Update, compared with the Lean model's validate/merge/valueSet (outcome: error code | panic | stored-after + written-after); masks drawn from the descriptor's path tree with parents, children, duplicates, overlaps and corrupted segments; non-trivial = some mask non-nil; distinct by the whole tuple")
 	mon := res.Monitor("write-semantics",
-		"for every case: path-by-path comparison of stored-before, written and stored-after over all populated leaf paths (reset => absent; outside update∩writable => unchanged; inside => FieldMask update semantics), rejection of unknown / read-only paths with no change, empty mask => no change, no panic")
+		"for every case: path-by-path comparison of stored-before, written and stored-after over all populated leaf paths (reset => absent; outside update∩writable => unchanged; inside => FieldMask update semantics), rejection of unknown / read-only paths with no change, empty mask => no change, no panic; the resource's configured writable mask, hidden tail paths[len:cap] included, is unchanged after every write")
 	g := &mt.Gen{R: lib.NewRand(f.Seed)}
 	runCases(seededCases(), tie, mon, drv)
 	n := f.N(6000, 150000)
